@@ -21,10 +21,38 @@ import (
 	"os"
 	"path/filepath"
 	"strings"
+	"sync/atomic"
 	"time"
 
+	"github.com/flant/shell-operator/pkg/metric"
+	"github.com/flant/shell-operator/pkg/metric_storage/operation"
 	"github.com/flant/shell-operator/pkg/utils/string_helper"
 )
+
+// c07FaultStorage is the operator's storage of hook metrics (public field HookMetricStorage, an
+// interface) with a fault that can be armed: the next SendBatch — taskHandleHookRun calls it after
+// every hook process that ended well, i.e. after the combination and the hook run — panics, once.
+// The wrapped queue handler of the c04 world (recoverPanics) reports the escaping panic as a failed
+// run: the task is retried, and every attempt is judged by `oracle merged`.
+type c07FaultStorage struct {
+	metric.Storage
+	armed atomic.Bool
+}
+
+func (s *c07FaultStorage) SendBatch(ops []operation.MetricOperation, labels map[string]string) error {
+	if s.armed.CompareAndSwap(true, false) {
+		panic("c07: the storage of hook metrics is broken (once)")
+	}
+	return s.Storage.SendBatch(ops, labels)
+}
+
+// c07InstallFault puts the fault storage into the operator of the world (while no hook run is past its gate).
+func c07InstallFault(w *c04World) *c07FaultStorage {
+	fs := &c07FaultStorage{Storage: w.op.HookMetricStorage}
+	w.op.HookMetricStorage = fs
+	w.recoverPanics = true
+	return fs
+}
 
 // c07Wh is one webhook binding of a generated hook.
 type c07Wh struct {
@@ -209,11 +237,24 @@ func (s *c07WhWorld) fire(hi int, x c07Wh, state string) bool {
 		done <- s.send(x, uid)
 	}()
 	line := fmt.Sprintf("webhook hook=%d kind=%s own=%s", h.Num, x.Kind, own)
+	// A request sent during a back-off: once the back-off can have ended the worker of the queue may
+	// start the retry (another hook process writes its start line, the head merges its followers):
+	// from then on nothing that is seen can be attributed — the case is undecided, never a violation.
+	late := func() bool {
+		if !w.notAfter.IsZero() && !time.Now().Before(w.notAfter) {
+			c.Inconcl = "a webhook request sent during a back-off was not answered before the back-off could end (machine too busy): the worker may have started the retry meanwhile"
+			return true
+		}
+		return false
+	}
 	// the hook run: its start line, then it blocks at its gate
 	deadline := time.Now().Add(40 * time.Second)
 	var start *c04Start
 	code, finished := 0, false
 	for start == nil {
+		if late() {
+			return false
+		}
 		if ss := w.readStarts(); len(ss) > w.logSeen {
 			st := ss[w.logSeen]
 			w.logSeen++
@@ -243,17 +284,27 @@ func (s *c07WhWorld) fire(hi int, x c07Wh, state string) bool {
 			ctxs = w.hookCtxs(start.ctxs)
 		}
 		during = s.queues()
-		w.openGate(filepath.Join(w.dir, fmt.Sprintf("gate.%s.%d", start.hook, start.n)), "ok")
-		select {
-		case code = <-done:
-		case <-time.After(40 * time.Second):
-			c.Op(line, "hang")
+		if late() {
 			return false
+		}
+		w.openGate(filepath.Join(w.dir, fmt.Sprintf("gate.%s.%d", start.hook, start.n)), "ok")
+		for answered := false; !answered; {
+			select {
+			case code = <-done:
+				answered = true
+			case <-time.After(2 * time.Millisecond):
+				if late() {
+					return false
+				}
+				if time.Now().After(deadline.Add(40 * time.Second)) {
+					c.Op(line, "hang")
+					return false
+				}
+			}
 		}
 	}
 	after := s.queues()
-	if !w.notAfter.IsZero() && !time.Now().Before(w.notAfter) {
-		c.Inconcl = "a webhook request sent during a back-off was not answered before the back-off could end (machine too busy): the worker may have merged tasks meanwhile"
+	if late() {
 		return false
 	}
 	_ = code
